@@ -39,7 +39,7 @@ var c04Bytes func(c *core.Ctx, one func(c *core.Ctx, cs srcCase)) // E-bytes sli
 func c04Run(c *core.Ctx) {
 	level := 2
 	if c.Thorough() {
-		level = 5
+		level = 6
 	}
 	for _, fam := range []string{"php7", "php5"} {
 		f := corpus.MustFam(fam)
